@@ -58,6 +58,7 @@ def gen_service_program(rng: Any, *, crash: bool = False) -> dict[str, Any]:
                     "spawn_via": rng.choice(["method", "shortcut"]),
                     # how a callable teardown action is given: plain function, functools.partial, or an object with __call__
                     "action_form": rng.choice(["function", "function", "partial", "object"]),
+                    "func_form": rng.choice(["function", "function", "partial", "object"]),
                     "start_delay": 0}
             if spec["started_value"] and rng.random() < 0.4:
                 spec["start_delay"] = 0.5  # the task takes a while before it reports itself started
@@ -92,6 +93,28 @@ def gen_service_program(rng: Any, *, crash: bool = False) -> dict[str, Any]:
         victim = rng.choice(svc)
         prog["crash"] = {"sid": victim[1], "when": rng.choice(["running", "after_stop"]), "at": rng.choice([0.25, 0.75, 1.25]), "exc": rng.choice(["ValueError", "Custom", "Group"])}
     return prog
+
+
+def wrap_form(func: Any, form: str, takes_task_status: bool) -> Any:
+    """the coroutine function given as a plain function, a functools.partial or an object with an async __call__"""
+    if form == "partial":
+        import functools
+
+        return functools.partial(func)
+    if form == "object":
+        if takes_task_status:
+            class StatusTask:
+                async def __call__(self, *, task_status: Any) -> None:
+                    await func(task_status=task_status)
+
+            return StatusTask()
+
+        class PlainTask:
+            async def __call__(self) -> None:
+                await func()
+
+        return PlainTask()
+    return func
 
 
 class ServiceRun:
@@ -181,6 +204,7 @@ class ServiceRun:
             async def func() -> None:  # type: ignore[misc]
                 await body()
 
+        func = wrap_form(func, spec.get("func_form", "function"), spec["started_value"])
         action = spec["action"]
         if action == "cancel":
             teardown_action: Any = "cancel"
@@ -571,7 +595,8 @@ def gen_factory_program(rng: Any) -> dict[str, Any]:
                     will_crash = True
             spec = {"tid": tid, "via": rng.choice(["start_task", "start_task_soon"]), "from": rng.choice(["owner", "foreign", "foreign_sync", "task"]),
                     "dur": rng.choice([0.125, 0.625, 1.125, 2.625, 5.125]), "outcome": outcome, "exc": rng.choice(["ValueError", "Custom", "Group"]),
-                    "task_status": rng.random() < 0.5, "name": rng.choice([None, f"task{tid}"])}
+                    "task_status": rng.random() < 0.5, "name": rng.choice([None, f"task{tid}"]),
+                    "func_form": rng.choice(["function", "function", "partial", "object"])}
             if spec["from"] == "foreign_sync":
                 spec["via"] = "start_task_soon"
             if outcome == "return" and rng.random() < 0.25:
@@ -667,13 +692,14 @@ class FactoryRun:
                 return
             run.log("task-end", tid, how="return")
 
-        if spec["task_status"] and spec["via"] == "start_task":
+        takes = bool(spec["task_status"] and spec["via"] == "start_task")
+        if takes:
             async def func(*, task_status: Any) -> None:
                 await body(task_status)
         else:
             async def func() -> None:  # type: ignore[misc]
                 await body()
-        return func
+        return wrap_form(func, spec.get("func_form", "function"), takes)
 
     async def spawn(self, spec: dict[str, Any], where: str, spawner_ctx: Any) -> None:
         func = self.make_body(spec, lambda: spawner_ctx)
@@ -881,6 +907,8 @@ def check_factory(run: FactoryRun) -> tuple[list[dict[str, Any]], dict[str, int]
         inc("tasks_started")
         where = spawn_call[tid]["where"] if tid in spawn_call else "?"
         inc(f"spawned_from_{where}")
+        if tid in specs and specs[tid].get("func_form", "function") != "function":
+            inc(f"task_func_form_{specs[tid]['func_form']}")
         if not e["parent_parent_is_owner"] or e["parent_is_owner"]:
             bad("factory-task-context", f"task {tid}: its context's parent is not the factory's own context (a child of the owning context)")
         if e["parent_is_spawner_ctx"]:
